@@ -202,6 +202,58 @@ static AElem random_elem(MsgGen &g, int depth, bool top) {
     return e;
 }
 
+// ---------------------------------------------------------------- C07
+// arbitrary bytes in an exact-size block flush against a poisoned red zone (n = 0: a
+// pointer to the end of a block).  Phase 1: length + validity; phase 2 (only if the
+// predicate accepts): every accessor.  Crashes, hangs and ASan reports are observations.
+static void do_bytes(const std::vector<uint8_t> &in, FILE *out) {
+    size_t n = in.size();
+    FlushBuf fb(n); if (n) memcpy(fb.p, in.data(), n);
+    const char *m = (const char *)fb.p;
+    JW w; w.obj().kstr("k", "bytes").kbytes("bytes", in);
+    long long mlen = -1; bool valid = false;
+    int sig1 = vg_run(2, [&] { mlen = (long long)rtosc_message_length(m, n); valid = rtosc_valid_message_p(m, n); });
+    w.knum("mlen", mlen).kbool("valid", valid && !sig1).knum("sig_v", sig1).knum("asan_v", vg_asan_hits).kstr("what_v", vg_asan_first);
+    if (valid && !sig1) {
+        JW a; int sig2 = vg_run(2, [&] {
+            a.obj();
+            const char *as = rtosc_argument_string(m);
+            size_t asl = strnlen(as, 600); a.kbytes("argstr", (const uint8_t *)as, asl);
+            unsigned na = rtosc_narguments(m); a.knum("nargs", na); if (na > 600) na = 600;
+            a.key("types").arr(); for (unsigned i = 0; i < na; ++i) a.num((unsigned char)rtosc_type(m, i)); a.end_arr();
+            a.key("vals").arr(); for (unsigned i = 0; i < na; ++i) { char t = rtosc_type(m, i); obs_val(a, t, rtosc_argument(m, i), (long)n); } a.end_arr();
+            rtosc_arg_itr_t it = rtosc_itr_begin(m); unsigned cnt = 0;
+            a.key("itr").arr();
+            while (!rtosc_itr_end(it) && cnt < na + 4) { rtosc_arg_val_t v = rtosc_itr_next(&it); a.obj().knum("t", (unsigned char)v.type).key("v"); obs_val(a, v.type, v.val, (long)n); a.end_obj(); cnt++; }
+            a.end_arr(); a.kbool("itr_end", rtosc_itr_end(it) != 0);
+            a.end_obj();
+        });
+        w.knum("sig_a", sig2).knum("asan_a", vg_asan_hits).kstr("what_a", vg_asan_first);
+        if (!sig2) w.key("acc").raw(a.s); else w.key("acc").raw("{}");
+    }
+    w.end_obj();
+    fprintf(out, "%s\n", w.s.c_str());
+}
+// structure-aware random mutation of valid messages (engine B input source)
+static std::vector<uint8_t> mutate(MsgGen &g, std::vector<uint8_t> b) {
+    unsigned steps = 1 + (unsigned)g.R(6);
+    static const uint32_t words[] = {0, 1, 3, 4, 8, 0x7fffffff, 0x80000000u, 0xfffffff8u, 0xfffffffcu, 0xfffffffdu, 0xffffffffu};
+    static const uint8_t bv[] = {0, 1, 44, 47, 91, 93, 98, 105, 115, 127, 128, 255};
+    for (unsigned s = 0; s < steps; ++s) {
+        switch (g.R(7)) {
+            case 0: if (!b.empty()) b.resize(g.R(b.size())); break;                                   // truncate
+            case 1: if (!b.empty()) b[g.R(b.size())] = bv[g.R(sizeof bv)]; break;                      // boundary byte
+            case 2: if (!b.empty()) b[g.R(b.size())] = (uint8_t)g.R(256); break;                       // random byte
+            case 3: if (b.size() >= 4) { size_t p = 4 * g.R(b.size() / 4); uint32_t v = words[g.R(11)]; b[p] = v >> 24; b[p + 1] = v >> 16; b[p + 2] = v >> 8; b[p + 3] = v; } break;
+            case 4: { size_t p = 4 * g.R(b.size() / 4 + 1); uint8_t ins[4] = {0, 0, 0, 0}; if (g.R(2)) { ins[0] = ','; ins[1] = "bsiSh"[g.R(5)]; } b.insert(b.begin() + p, ins, ins + 4); break; }
+            case 5: if (b.size() >= 4) { size_t p = 4 * g.R(b.size() / 4); b.erase(b.begin() + p, b.begin() + p + 4); } break;
+            default: { size_t k = 1 + g.R(4); for (size_t i = 0; i < k; ++i) b.push_back(g.R(3) ? 0 : (uint8_t)g.R(256)); }
+        }
+        if (b.size() > 512) b.resize(512);
+    }
+    return b;
+}
+
 int main(int argc, char **argv) {
     vg_init();
     if (argc < 5) { fprintf(stderr, "usage\n"); return 2; }
@@ -215,6 +267,7 @@ int main(int argc, char **argv) {
         while (read_line(f, line)) { if (line.empty()) continue; J j = jparse(line);
             if (mode == "msg") do_msg(amsg_from_json(j), out);
             else if (mode == "cap") do_cap(amsg_from_json(j), out);
+            else if (mode == "bytes") do_bytes(j["bytes"].bytes(), out);
             else if (mode == "bundle") { AElem t; t.is_msg = false; t.tt = from_limbs64(j["tt"]); for (auto &k : j["elems"].a) t.kids.push_back(elem_from_json(k)); do_bundle(t, out); }
         }
         fclose(f);
@@ -224,6 +277,8 @@ int main(int argc, char **argv) {
         for (long i = 0; i < count; ++i) {
             // sizes: mostly small, sometimes up to the property's stated bounds
             bool big = g.R(10) == 0;
+            if (mode == "bytes") { AMsg m = g.msg(g.R(10) ? 5 : 30, 9, g.R(10) ? 9 : 60); auto ra = amsg_args(m); std::vector<uint8_t> b(rtosc_amessage(NULL, 0, m.addr.c_str(), m.tags().c_str(), ra.data()));
+                rtosc_amessage((char *)b.data(), b.size(), m.addr.c_str(), m.tags().c_str(), ra.data()); do_bytes(g.R(50) ? mutate(g, b) : b, out); continue; }
             if (mode == "bundle") { do_bundle(random_elem(g, (int)g.R(5), true), out); continue; }
             AMsg m = g.msg(big ? 40 : 6, big ? 64 : 9, big ? 40 : 9);
             if (mode == "msg") do_msg(m, out);
